@@ -27,7 +27,9 @@
 (*   the last in-flight sender forgets the queued EOF/CLOSE) | "wait_window_only" *)
 (*   (the window wait re-tests only the window, so a close wakes nobody) |         *)
 (*   "no_exit_recheck" (a sender woken by a window adjust allocates window without  *)
-(*   re-checking closed / eof_sent)                                                 *)
+(*   re-checking closed / eof_sent) | "credit_silent" (discarded extended data is   *)
+(*   added to in_window_sofar but no WINDOW_ADJUST is sent for it) | "no_eof_notify" *)
+(*   (_send_eof does not notify the window condition: a parked writer sleeps on)     *)
 EXTENDS Naturals, Sequences, FiniteSets, TLC
 
 CONSTANTS UsersA, UsersB,   \* user threads of each side (strings)
@@ -202,9 +204,10 @@ SendEntry(t) ==
                  /\ UNCHANGED <<op, left, pend, held, calls, ctx, last, spins, chan, hb, tr, robs>> /\ NoEmit
      ELSE SendReserve(t)
 
-\* out_buffer_cv is notified by _window_adjust and by _set_closed (close, peer CLOSE, transport loss); the loop in
-\* _wait_for_send_window leaves on window > 0 or closed (eof_sent alone wakes nobody: it is seen after the next wake-up)
-WakeCond(t)  == outwin[Side(t)] > 0 \/ closed[Side(t)]
+\* out_buffer_cv is notified by _window_adjust, by _set_closed (close, peer CLOSE, transport loss) and - repaired setting -
+\* by _send_eof (shutdown_write / shutdown(2) from another thread); the woken sender re-checks under the lock.
+\* Mut = "no_eof_notify" is the tree before that repair: eof_sent alone wakes nobody, it is only seen after the next wake-up.
+WakeCond(t)  == outwin[Side(t)] > 0 \/ closed[Side(t)] \/ (Mut # "no_eof_notify" /\ eofSent[Side(t)])
 WakeGuard(t) == IF Mut = "wait_window_only" THEN outwin[Side(t)] > 0 ELSE WakeCond(t)
 \* the woken sender, still under the lock: window still 0 -> the check inside the loop (closed: return 0);
 \* window open -> it leaves the loop and RE-CHECKS closed / eof_sent before allocating (channel.py: "we have some window
@@ -370,7 +373,12 @@ Deliver(X) ==
             /\ buf' = [buf EXCEPT ![X].err = @ + m.n]
             /\ UNCHANGED <<outwin, eofSent, eofRecv, closed, pclosed, linked, alive, sofar, tmo, hb, thr, tr, eobs, robs>>
           [] m.t = "EXT" /\ m.code # 1 ->            \* _feed_extended: "unknown extended_data type; discarding"
-            IF FixCredit
+            IF FixCredit /\ Mut = "credit_silent"      \* counted in in_window_sofar, but nobody sends the adjustment
+            THEN /\ wire' = [wire EXCEPT ![Y] = Tail(@)]
+                 /\ sofar' = [sofar EXCEPT ![X] = IF closed[X] \/ eofRecv[X] THEN @ ELSE @ + m.n]
+                 /\ consumed' = [consumed EXCEPT ![X] = @ + m.n]
+                 /\ UNCHANGED <<outwin, eofSent, eofRecv, closed, pclosed, linked, alive, buf, tmo, hb, thr, tr, eobs, leaked, closeSeen>>
+            ELSE IF FixCredit
             THEN LET r == AddWindow(X, m.n) IN
                  /\ sofar' = [sofar EXCEPT ![X] = r[1]]
                  /\ consumed' = [consumed EXCEPT ![X] = @ + m.n]       \* disposed of on the application's behalf
@@ -498,7 +506,11 @@ NoSendAfterRelease == /\ \A X \in Sides : ~lateEmit[X]
 \* a sender parked in the window wait is never left there once the window reopened or the channel was closed.
 \* NoHangInWindowWait is an AT-REST predicate (Channel_Trace evaluates it when a schedule of the real code has ended);
 \* HangFree is its model form: no state in which every call in progress is stuck for good while one of them is such a sender.
-NoHangInWindowWait == \A t \in Threads : pc[t] = "send_wait" => ~WakeCond(t)
+\* what the statement demands (independent of the mutation toggles): window reopened, channel closed, or shut down for writing
+ShouldWake(t) == outwin[Side(t)] > 0 \/ closed[Side(t)] \/ eofSent[Side(t)]
+\* liveness form that needs no reader: once the side is closed or shut down for writing, every send call in progress ends
+ShutEndsSends == \A t \in Threads : [](pc[t] # "idle" /\ op[t] \in SendOps /\ (closed[Side(t)] \/ eofSent[Side(t)]) => <>(pc[t] = "idle"))
+NoHangInWindowWait == \A t \in Threads : pc[t] = "send_wait" => ~ShouldWake(t)
 StuckForGood(t) == \/ pc[t] = "idle"
                    \/ pc[t] = "send_wait" /\ ~WakeGuard(t) /\ tmo[Side(t)] = "block"
                    \/ pc[t] = "recv_read" /\ buf[Side(t)][Kind(t)] = 0 /\ ~pclosed[Side(t)] /\ tmo[Side(t)] = "block"
